@@ -556,7 +556,8 @@ func (h *harness) idctSection() {
 	// row and column -- the AVX2 code's "are all AC terms zero" shortcut is a two-stage test of
 	// specific positions (8..11 and 16..19 first, then rows 1..7), the portable code tests each
 	// column / row separately
-	const nSweep = 63*2 + 14
+	const nEdge = 4
+	const nSweep = 63*2 + 14 + nEdge
 	n += nSweep
 	for i := 0; i < n; i++ {
 		c := make([]int, 64)
@@ -576,15 +577,24 @@ func (h *harness) idctSection() {
 			for k := 0; k < 8; k++ {
 				c[8*(i-126+1)+k] = rd.Range(-40, 40)
 			}
-		case i < nSweep: // one column 1..7
+		case i < 63*2+14: // one column 1..7
 			kind = 100
 			c[0] = rd.Range(-100, 100)
 			for k := 0; k < 8; k++ {
 				c[8*k+(i-133+1)] = rd.Range(-40, 40)
 			}
+		case i < nSweep:
+			// the edge of the lane condition of idct_block_variants_agree: the flat darkest block
+			// (every sample -512: in range, but the first-pass intermediates are -16384, outside
+			// `lanesFit`'s +-16383) and its neighbours
+			kind = 101
+			c[0] = []int{-4096, -4096, -4095, 4088}[i-(63*2+14)]
+			if i-(63*2+14) == 1 {
+				c[1+rd.Intn(63)] = 1
+			}
 		}
 		switch kind {
-		case 100:
+		case 100, 101:
 		case 8: // a random subset of rows is non-zero
 			mask := rd.Intn(256)
 			for k := range c {
@@ -657,6 +667,8 @@ func (h *harness) idctSection() {
 			switch kind {
 			case 100:
 				q[k] = byte(rd.Range(1, 3))
+			case 101:
+				q[k] = 1
 			case 2, 6:
 				q[k] = byte(rd.Range(1, 255))
 			case 5:
@@ -750,7 +762,45 @@ func (h *harness) hashSection() {
 			r.Count("hashref:" + codec)
 		}
 	}
+	h.hashLengthSweep()
 	h.hashWorstCase()
+}
+
+// hashLengthSweep: EVERY length 0..320 (random bytes), start address misaligned by length mod 16:
+// the SIMD twins process 16/32/64/128-byte blocks with scalar heads and tails, a defect in the
+// remainder handling shows at specific lengths only.  Every build against the reference
+// definitions (adler32, crc32, crc64) and against each other (xxhash32/64).
+func (h *harness) hashLengthSweep() {
+	r := h.r
+	rd := r.Rand.Fork()
+	maxLen := 320
+	if r.Thorough {
+		maxLen = 1100
+	}
+	for _, codec := range []string{"adler32", "crc32", "crc64", "xxhash32", "xxhash64"} {
+		for n := 0; n <= maxLen; n++ {
+			data := rd.Bytes(n)
+			mis := n % 16
+			cmd := fmt.Sprintf("run codec=%s init=2 prefill=r:%d misalign=%d src=%s", codec, 51+mis, mis, hlib.Hex(data))
+			want := ""
+			for _, f := range h.fl {
+				pl := h.pools[f.name]
+				if pl == nil {
+					continue
+				}
+				v := "v " + fieldsKV(pl.ask(cmd))["v"]
+				if want == "" {
+					want = v
+					if !strings.HasPrefix(codec, "xxhash") {
+						r.Op(codec+" "+hlib.Hex(data), v)
+					}
+				} else if v != want {
+					r.Fail("hash:"+codec+":variant", fmt.Sprintf("%s of %d bytes differs between builds (%s vs %s in %s misalign %d)", codec, n, v, want, f.name, mis), cmd)
+				}
+			}
+			r.Count("hashref:length-sweep:" + codec)
+		}
+	}
 }
 
 // hseg = a run of n copies of one byte value, or literal bytes
@@ -889,6 +939,40 @@ func runGen(r *hlib.Run) {
 		os.Exit(1)
 	}
 	r.WriteGen("C09_StdFields.lean", fields)
+	r.WriteGen("C09_AdlerChunks.lean", genAdlerChunks(r.Repo))
+}
+
+var reAdlerChunk = regexp.MustCompile(`if args\.x\.length\(\) > (\d+) \{\s*remaining = args\.x\[(\d+) \.\.\]\s*args\.x = args\.x\[\.\. (\d+)\]`)
+
+// genAdlerChunks lists the chunk sizes of the outer loops of std/adler32 (every number of the
+// `if args.x.length() > N { remaining = args.x[N ..]; args.x = args.x[.. N] }` statements).
+func genAdlerChunks(repo string) string {
+	files, _ := filepath.Glob(filepath.Join(repo, "std", "adler32", "*.wuffs"))
+	sort.Strings(files)
+	var b strings.Builder
+	b.WriteString("/-\nREGENERATED by `wvh_c09 -mode gen` from /repo/std/adler32/*.wuffs. Do not edit.\n-/\nnamespace WuffsVerif.Gen.C09\n\n" +
+		"/-- (file, CHUNK) for every `if args.x.length() > CHUNK { remaining = args.x[CHUNK ..] … }` of std/adler32 -/\n" +
+		"def adlerChunks : List (String × Nat) := [\n")
+	var rows []string
+	for _, f := range files {
+		src, err := os.ReadFile(f)
+		if err != nil {
+			continue
+		}
+		text := reComment.ReplaceAllString(string(src), "")
+		for _, m := range reAdlerChunk.FindAllStringSubmatch(text, -1) {
+			seen := map[string]bool{}
+			for _, n := range m[1:] {
+				if !seen[n] {
+					seen[n] = true
+					rows = append(rows, fmt.Sprintf("  (\"%s\", %s)", filepath.Base(f), n))
+				}
+			}
+		}
+	}
+	b.WriteString(strings.Join(rows, ",\n"))
+	b.WriteString("\n]\n\nend WuffsVerif.Gen.C09\n")
+	return b.String()
 }
 
 var (
